@@ -57,7 +57,7 @@ RULE = ("scenarios of one swap on the real SwapService (4 roles x btc/lbtc): dir
 
 def run(ctx):
     build_findings(ctx)
-    n = 140 if ctx.quick else 1600
+    n = 120 if ctx.quick else 1500
     d = ctx.harness("fsm", args=["-n", n] + MON)
     if d is None:
         return
